@@ -48,7 +48,7 @@ def rigid_spec(draw, identity_ok=True):
 
 @st.composite
 def grid_spec(draw, dims=(1, 2, 3), kinds=None, max_n=4, max_n3=3, perturb=True, max_amp=0.2, rigid=True,
-              affine=True, gmsh=False, poly=True, scales=False, arrow=False):
+              affine=True, gmsh=False, poly=True, scales=False, arrow=False, tri_user=False):
     dim = draw(st.sampled_from(list(dims)))
     allowed = {1: ["cart", "tensor"], 2: ["cart", "tensor", "tri"] + (["poly"] if poly else []),
                3: ["cart", "tensor", "tet"] + (["polyx", "polyx"] if poly else [])}[dim]
@@ -76,6 +76,10 @@ def grid_spec(draw, dims=(1, 2, 3), kinds=None, max_n=4, max_n3=3, perturb=True,
     if kind == "tet":
         n = [min(k, 2) for k in n]
     s["n"] = n
+    if tri_user and kind == "tri" and draw(st.integers(0, 2)) == 0:
+        # the triangulation handed over as a user-supplied cell-node array, the node order of every cell permuted
+        # (cyclic shifts and reversals): TriangleGrid repairs shared edges traversed in the same direction by both cells
+        s["tri_order"] = draw(st.lists(st.integers(0, 5), min_size=2 * n[0] * n[1], max_size=2 * n[0] * n[1]))
     if kind == "tensor":
         coords = []
         for k in n:
@@ -260,6 +264,13 @@ def build_grid(spec, compute_geometry=True):
         g = pp.TensorGrid(*[np.array(c, dtype=float) for c in spec["coords"]])
     elif kind == "tri":
         g = pp.StructuredTriangleGrid(np.array(n), np.array(spec["phys"], dtype=float))
+        if spec.get("tri_order"):
+            import itertools
+            perms = list(itertools.permutations(range(3)))
+            tri = g.cell_nodes().tocsc().indices.reshape(-1, 3).T.copy()
+            for c, k in enumerate(spec["tri_order"]):
+                tri[:, c] = tri[list(perms[k]), c]
+            g = pp.TriangleGrid(g.nodes.copy(), tri)
     elif kind == "tet":
         g = pp.StructuredTetrahedralGrid(np.array(n), np.array(spec["phys"], dtype=float))
     elif kind in ("poly", "polyx"):
@@ -355,6 +366,8 @@ def grid_meta(spec):
         labels.append("orient-" + spec["orient"])
         if any(spec["split"]):
             labels.append("poly-mixed")
+    if spec.get("tri_order"):
+        labels.append("tri-user-node-order")
     return {"measure": meas, "planar_faces": True, "labels": labels}
 
 
